@@ -195,16 +195,16 @@ theorem zipWith_get {α β γ : Type} (f : α → β → γ) (l1 : List α) (l2 
       | zero => simp at h; exact ⟨a, b, rfl, rfl, h.symm⟩
       | succ j => simp at h; simpa using ih l2 j h
 
-/-- the routine function entered while `cur` holds belongs to the generation of the record in the map -/
-theorem cur_gen (s : St) (m : M7b) (k d g' i' : Nat) (y' : G) (x' : Inst) (hD : DInv s) (hO : Sim6 s m.o)
-    (hc : m.cur k d = true) (hy' : s.gens[g']? = some y') (hx' : y'.insts[i']? = some x')
+/-- a routine instance of `k` whose data is the current constructor generation while `cur` holds belongs to the generation of the record in the map -/
+theorem cur_gen (s : St) (o : M6o) (k d g' i' : Nat) (y' : G) (x' : Inst) (hD : DInv s) (hO : Sim6 s o)
+    (hc : o.cur k d = true) (hy' : s.gens[g']? = some y') (hx' : y'.insts[i']? = some x')
     (hk : y'.key = k) (hd : x'.data = d) : ∃ r, s.key k = some r ∧ r.gen = g' := by
-  simp only [M7b.cur, Bool.and_eq_true, List.isEmpty_iff, beq_iff_eq] at hc
+  simp only [M6o.cur, Bool.and_eq_true, List.isEmpty_iff, beq_iff_eq] at hc
   obtain ⟨⟨hp, hst⟩, hcnt⟩ := hc
   have hcalls : s.calls = [] := by
     have := hO.2.ids; rw [hp] at this; simpa using this.symm
   obtain ⟨_, hK⟩ := hO.2.quiet hcalls
-  obtain ⟨r, hr, hdr⟩ := present_key s m.o k hK hst
+  obtain ⟨r, hr, hdr⟩ := present_key s o k hK hst
   refine ⟨r, hr, ?_⟩
   have hn : s.ctors k = d := hK.cnt k d hcnt
   have hdata : r.data = s.ctors k := by
